@@ -93,6 +93,17 @@ void h_parse_qlt(void) {
     g_k = in.gk;
     lltd_iface_state st; V_ZERO(st);
     v_build_state(&st, &in.is, g_ctx);
+#ifdef V_ICON_BIG
+    /* big-icon instance: the cached icon, when there is one, has the platform's (big) size; contents arbitrary */
+    if (st.small_icon != NULL) {
+        V_ASSUME(g_cfg.icon_big >= 1);
+        st.small_icon = malloc(g_cfg.icon_big); V_ASSUME(st.small_icon != NULL);
+        st.small_icon_size = g_cfg.icon_big;
+    }
+#define V_ICON_SIZE_NOW ((size_t)g_cfg.icon_big)
+#else
+#define V_ICON_SIZE_NOW (g_cfg.icon_size)
+#endif
     V_ASSUME(ST_SHAPE(&st));
     V_ASSUME(in.allocs0 < 1000 && in.tx0 < 1000);
     g_led.allocs = in.allocs0; g_led.tx_attempts = in.tx0; g_req.tx_base = in.tx0;
@@ -106,8 +117,8 @@ void h_parse_qlt(void) {
     static uint8_t hw[64];
     if (type == 0x0E) {
         bool cached = st.small_icon != NULL;
-        g_req.lt_data = g_cfg.icon; g_req.lt_size = g_cfg.icon_size;
-        g_req.lt_fault = !cached && (g_cfg.icon_fail || !V_ALLOC_OK(in.allocs0, 0) || g_cfg.icon_size == 0);
+        g_req.lt_data = g_cfg.icon; g_req.lt_size = V_ICON_SIZE_NOW;
+        g_req.lt_fault = !cached && (g_cfg.icon_fail || !V_ALLOC_OK(in.allocs0, 0) || V_ICON_SIZE_NOW == 0);
         if (!cached && g_cfg.icon_fail) { g_req.lt_data = (const uint8_t *)0; g_req.lt_size = 0; }
     } else if (type == 0x11) {
         g_req.lt_data = g_cfg.fname; g_req.lt_size = g_cfg.fname_size;
@@ -129,9 +140,18 @@ void h_parse_qlt(void) {
     V_POST("C08.qlt-ledger: at most one response; only a newly cached icon is retained", C08_QLT_LEDGER(&st, in.tx0, live0, o.small_icon));
     V_POST("C08.qlt-wf", ST_SHAPE(&st));
     V_POST("C19.qlt-ledger: live memory = record + observations + cached icon", g_led.live == ST_LIVE(&st));
+#ifdef V_ICON_BIG
+    V_POST("C08.icon-cache-size: a cached icon has the platform's size (contents: small-icon instance)",
+           st.small_icon == NULL || st.small_icon_size == V_ICON_SIZE_NOW);
+    if (v_be16(f + 30) != 0 && type == 0x0E && g_cfg.icon_big > 16384 && !g_cfg.icon_fail && o.small_icon == NULL && V_ALLOC_OK(in.allocs0, 0)) {
+        V_POST("C08.icon-cached-once: a fetched icon of any size is kept until Reset", st.small_icon != NULL);
+        V_CANARY("bigicon");
+    }
+#else
     V_POST("C08.icon-cache-faithful: a cached icon holds the platform's bytes",
            st.small_icon == NULL || (st.small_icon_size == g_cfg.icon_size &&
                                      (g_k >= st.small_icon_size || ((const uint8_t *)st.small_icon)[g_k] == g_cfg.icon[g_k])));
+#endif
     if (v_be16(f + 30) != 0 && type == 0x0E) { V_CANARY("icon"); }
     if (v_be16(f + 30) != 0 && type == 0x11) { V_CANARY("fname"); }
     if (v_be16(f + 30) != 0 && type == 0x13) { V_CANARY("hwid"); }
